@@ -1,10 +1,954 @@
-//! C10 — not built yet.
-use crate::{sx::Sx, Emitter};
+//! C10 — identifier parsing: cases and implementation outcomes.
+//!
+//! case = ( kind S<input> )                      parse kinds 0..16
+//!      | ( N20 S<id> S<server_name> )           UserId::parse_with_server_name{,_rc,_arc}
+//!      | ( N21 S<algorithm> S<device id> )      DeviceKeyId::from_parts
+//!      | ( N22 S<algorithm> S<key version> )    ServerSigningKeyId::from_parts
+//!      | ( N23 N<which> S<server_name> )        UserId::new / RoomId::new / EventId::new
+//!      | ( N24 S<id> )                          RoomOrAliasId <-> RoomId / RoomAliasId conversions
+//!
+//! Every parse case drives ALL forms of the identifier type (borrowed `<&T>::try_from`, `T::parse`,
+//! `parse_box`, `parse_rc`, `parse_arc`, `FromStr`, `TryFrom<String>`, `Box<T>::try_from`, and the
+//! two serde forms) and requires them to agree; disagreement is the outcome `( N3 <form> )`, which
+//! the model never produces.  (Form agreement is testing, not proof: the `IdZst` derive is not
+//! modelled.)  The outcome of an accepted identifier carries the stored bytes and every accessor.
+use std::panic::AssertUnwindSafe;
 
-pub fn run(_tier: &str, _seed: u64, _em: &mut Emitter) {}
+use ruma_common::{
+    Base64PublicKey, ClientSecret, CrossSigningKeyId, DeviceId, DeviceKeyAlgorithm, DeviceKeyId, EventId,
+    IdParseError, MxcUri, MxcUriError, OneTimeKeyId, OwnedBase64PublicKey, OwnedClientSecret, OwnedCrossSigningKeyId,
+    OwnedDeviceKeyId, OwnedEventId, OwnedMxcUri, OwnedOneTimeKeyId, OwnedRoomAliasId, OwnedRoomId,
+    OwnedRoomOrAliasId, OwnedServerName, OwnedServerSigningKeyId, OwnedServerSigningKeyVersion, OwnedUserId,
+    RoomAliasId, RoomId, RoomOrAliasId, RoomVersionId, ServerName, ServerSigningKeyId, ServerSigningKeyVersion,
+    SigningKeyAlgorithm, UserId,
+};
 
-pub fn replay(_case: &Sx) -> Option<Sx> {
-    None
+use crate::{
+    rng::Rng,
+    sx::{guarded, Sx},
+    Emitter,
+};
+
+// ---------------------------------------------------------------------------------------------
+// outcome encoding
+// ---------------------------------------------------------------------------------------------
+fn code(e: &IdParseError) -> i128 {
+    match e {
+        IdParseError::Empty => 1,
+        IdParseError::InvalidCharacters => 2,
+        IdParseError::InvalidServerName => 3,
+        IdParseError::MaximumLengthExceeded => 4,
+        IdParseError::MissingColon => 5,
+        IdParseError::MissingLeadingSigil => 6,
+        IdParseError::InvalidMxcUri(m) => mxc_code(m),
+        _ => 9,
+    }
+}
+
+fn mxc_code(e: &MxcUriError) -> i128 {
+    match e {
+        MxcUriError::WrongSchema => 11,
+        MxcUriError::MissingSlash => 12,
+        MxcUriError::MediaIdMalformed => 13,
+        MxcUriError::ServerNameMalformed => 14,
+        _ => 19,
+    }
+}
+
+fn res(r: Result<Sx, IdParseError>) -> Sx {
+    match r {
+        Ok(v) => Sx::ok(v),
+        Err(e) => Sx::err(code(&e)),
+    }
+}
+
+/// serde forms lose the error kind (it becomes a message): error code 0 = "some error".
+fn resj(r: Result<Sx, serde_json::Error>) -> Sx {
+    match r {
+        Ok(v) => Sx::ok(v),
+        Err(_) => Sx::err(0),
+    }
+}
+
+fn is_err(x: &Sx) -> bool {
+    matches!(x.as_list().and_then(|l| l.first()), Some(Sx::N(1)))
+}
+
+/// All forms must agree (serde forms only on Ok-payload / Err-ness).
+fn combine(v: Vec<(bool, Sx)>) -> Sx {
+    let first = v[0].1.clone();
+    for (i, (typed, o)) in v.iter().enumerate().skip(1) {
+        let same = if *typed { *o == first } else { *o == first || (is_err(o) && is_err(&first)) };
+        if !same {
+            return Sx::L(vec![Sx::N(3), Sx::N(i as i128)]);
+        }
+    }
+    first
+}
+
+macro_rules! all_forms {
+    ($T:ty, $O:ty, $s:expr, $acc:expr) => {{
+        let s: &str = $s;
+        let acc = $acc;
+        let js = serde_json::to_string(s).unwrap();
+        let mut v: Vec<(bool, Sx)> = Vec::new();
+        v.push((
+            true,
+            guarded(AssertUnwindSafe(|| {
+                res(<&$T>::try_from(s).map(|x| {
+                    // stored byte for byte; Display, AsRef, Serialize agree with it
+                    let a = acc(x);
+                    let same = x.as_str() == s
+                        && x.to_string() == s
+                        && x.as_bytes() == s.as_bytes()
+                        && serde_json::to_string(x).map(|j| j == js).unwrap_or(false);
+                    if same {
+                        a
+                    } else {
+                        Sx::L(vec![Sx::N(-7)])
+                    }
+                }))
+            })),
+        ));
+        v.push((true, guarded(AssertUnwindSafe(|| res(<$T>::parse(s).map(|x| acc(&x)))))));
+        v.push((true, guarded(AssertUnwindSafe(|| res(<$T>::parse_box(s).map(|x| acc(&x)))))));
+        v.push((true, guarded(AssertUnwindSafe(|| res(<$T>::parse_rc(s).map(|x| acc(&x)))))));
+        v.push((true, guarded(AssertUnwindSafe(|| res(<$T>::parse_arc(s).map(|x| acc(&x)))))));
+        v.push((true, guarded(AssertUnwindSafe(|| res(s.parse::<$O>().map(|x| acc(&x)))))));
+        v.push((true, guarded(AssertUnwindSafe(|| res(<$O>::try_from(s.to_owned()).map(|x| acc(&x)))))));
+        v.push((true, guarded(AssertUnwindSafe(|| res(<Box<$T>>::try_from(s).map(|x| acc(&x)))))));
+        v.push((false, guarded(AssertUnwindSafe(|| resj(serde_json::from_str::<$O>(&js).map(|x| acc(&x)))))));
+        v.push((false, guarded(AssertUnwindSafe(|| resj(serde_json::from_str::<Box<$T>>(&js).map(|x| acc(&x)))))));
+        combine(v)
+    }};
+}
+
+fn sn_opt(x: Option<&ServerName>) -> Sx {
+    Sx::opt(x.map(|n| Sx::s(n.as_str())))
+}
+
+fn rc(r: Result<(), IdParseError>) -> Sx {
+    match r {
+        Ok(()) => Sx::N(0),
+        Err(e) => Sx::N(code(&e)),
+    }
+}
+
+fn acc_user(x: &UserId) -> Sx {
+    Sx::L(vec![
+        Sx::s(x.as_str()),
+        Sx::s(x.localpart()),
+        Sx::s(x.server_name().as_str()),
+        Sx::b(x.is_historical()),
+        rc(x.validate_historical()),
+        rc(x.validate_strict()),
+    ])
+}
+fn acc_room(x: &RoomId) -> Sx {
+    Sx::L(vec![Sx::s(x.as_str()), sn_opt(x.server_name())])
+}
+fn acc_alias(x: &RoomAliasId) -> Sx {
+    Sx::L(vec![Sx::s(x.as_str()), Sx::s(x.alias()), Sx::s(x.server_name().as_str())])
+}
+fn acc_event(x: &EventId) -> Sx {
+    Sx::L(vec![Sx::s(x.as_str()), Sx::s(x.localpart()), sn_opt(x.server_name())])
+}
+fn acc_roa(x: &RoomOrAliasId) -> Sx {
+    Sx::L(vec![Sx::s(x.as_str()), Sx::b(x.is_room_id()), Sx::b(x.is_room_alias_id()), sn_opt(x.server_name())])
+}
+fn acc_server(x: &ServerName) -> Sx {
+    Sx::L(vec![
+        Sx::s(x.as_str()),
+        Sx::s(x.host()),
+        Sx::opt(x.port().map(|p| Sx::N(p as i128))),
+        Sx::b(x.is_ip_literal()),
+    ])
+}
+fn acc_dk(x: &DeviceKeyId) -> Sx {
+    Sx::L(vec![Sx::s(x.as_str()), Sx::s(x.algorithm().as_ref()), Sx::s(x.key_name().as_str())])
+}
+fn acc_sk(x: &ServerSigningKeyId) -> Sx {
+    Sx::L(vec![Sx::s(x.as_str()), Sx::s(x.algorithm().as_ref()), Sx::s(x.key_name().as_str())])
+}
+fn acc_ck(x: &CrossSigningKeyId) -> Sx {
+    Sx::L(vec![Sx::s(x.as_str()), Sx::s(x.algorithm().as_ref()), Sx::s(x.key_name().as_str())])
+}
+fn acc_ok(x: &OneTimeKeyId) -> Sx {
+    Sx::L(vec![Sx::s(x.as_str()), Sx::s(x.algorithm().as_ref()), Sx::s(x.key_name().as_str())])
+}
+fn acc_cs(x: &ClientSecret) -> Sx {
+    Sx::L(vec![Sx::s(x.as_str())])
+}
+fn acc_b64(x: &Base64PublicKey) -> Sx {
+    Sx::L(vec![Sx::s(x.as_str())])
+}
+fn acc_skv(x: &ServerSigningKeyVersion) -> Sx {
+    Sx::L(vec![Sx::s(x.as_str())])
+}
+
+fn mxc_case(s: &str) -> Sx {
+    // MxcUri is an unchecked identifier: every string converts; validity is a method.
+    let js = serde_json::to_string(s).unwrap();
+    let one = |m: &MxcUri| -> Sx {
+        let v = m.validate();
+        let p = m.parts();
+        let consistent = m.as_str() == s
+            && m.is_valid() == v.is_ok()
+            && v.is_ok() == p.is_ok()
+            && m.media_id().ok() == p.as_ref().ok().map(|x| x.1)
+            && m.server_name().ok().map(|x| x.as_str()) == p.as_ref().ok().map(|x| x.0.as_str())
+            && v.as_ref().err() == p.as_ref().err();
+        if !consistent {
+            return Sx::L(vec![Sx::N(-7)]);
+        }
+        match p {
+            Ok((sn, media)) => Sx::ok(Sx::L(vec![Sx::s(m.as_str()), Sx::s(sn.as_str()), Sx::s(media)])),
+            Err(e) => Sx::err(mxc_code(&e)),
+        }
+    };
+    let v = vec![
+        (true, guarded(AssertUnwindSafe(|| one(<&MxcUri>::from(s))))),
+        (true, guarded(AssertUnwindSafe(|| one(&OwnedMxcUri::from(s))))),
+        (true, guarded(AssertUnwindSafe(|| one(&Box::<MxcUri>::from(s))))),
+        (true, guarded(AssertUnwindSafe(|| one(&std::sync::Arc::<MxcUri>::from(Box::<MxcUri>::from(s)))))),
+        (true, guarded(AssertUnwindSafe(|| one(&std::rc::Rc::<MxcUri>::from(Box::<MxcUri>::from(s)))))),
+        (
+            true,
+            guarded(AssertUnwindSafe(|| match serde_json::from_str::<OwnedMxcUri>(&js) {
+                Ok(m) => one(&m),
+                Err(_) => Sx::L(vec![Sx::N(-8)]),
+            })),
+        ),
+    ];
+    combine(v)
+}
+
+fn room_version_case(s: &str) -> Sx {
+    let js = serde_json::to_string(s).unwrap();
+    let acc = |x: &RoomVersionId| Sx::L(vec![Sx::s(x.as_str())]);
+    let v = vec![
+        (true, guarded(AssertUnwindSafe(|| res(RoomVersionId::try_from(s).map(|x| acc(&x)))))),
+        (true, guarded(AssertUnwindSafe(|| res(RoomVersionId::try_from(s.to_owned()).map(|x| acc(&x)))))),
+        (true, guarded(AssertUnwindSafe(|| res(s.parse::<RoomVersionId>().map(|x| acc(&x)))))),
+        (false, guarded(AssertUnwindSafe(|| resj(serde_json::from_str::<RoomVersionId>(&js).map(|x| acc(&x)))))),
+    ];
+    combine(v)
+}
+
+pub const PARSE_KINDS: &[i128] = &[0, 1, 2, 3, 4, 5, 6, 7, 8, 9, 10, 11, 12, 13, 14, 15, 16];
+
+fn run_parse(kind: i128, s: &str) -> Option<Sx> {
+    Some(match kind {
+        0 => all_forms!(UserId, OwnedUserId, s, acc_user),
+        1 => all_forms!(RoomId, OwnedRoomId, s, acc_room),
+        2 => all_forms!(RoomAliasId, OwnedRoomAliasId, s, acc_alias),
+        3 => all_forms!(EventId, OwnedEventId, s, acc_event),
+        4 => all_forms!(RoomOrAliasId, OwnedRoomOrAliasId, s, acc_roa),
+        5 => all_forms!(ServerName, OwnedServerName, s, acc_server),
+        6 => all_forms!(DeviceKeyId, OwnedDeviceKeyId, s, acc_dk),
+        7 => all_forms!(ServerSigningKeyId, OwnedServerSigningKeyId, s, acc_sk),
+        8 => all_forms!(CrossSigningKeyId, OwnedCrossSigningKeyId, s, acc_ck),
+        9 => all_forms!(OneTimeKeyId, OwnedOneTimeKeyId, s, acc_ok),
+        10 => mxc_case(s),
+        11 => room_version_case(s),
+        12 => all_forms!(ClientSecret, OwnedClientSecret, s, acc_cs),
+        13 => all_forms!(Base64PublicKey, OwnedBase64PublicKey, s, acc_b64),
+        14 => all_forms!(ServerSigningKeyVersion, OwnedServerSigningKeyVersion, s, acc_skv),
+        15 => guarded(AssertUnwindSafe(|| {
+            res(ruma_identifiers_validation::user_id::validate_strict(s).map(|()| Sx::L(vec![])))
+        })),
+        16 => guarded(AssertUnwindSafe(|| {
+            res(ruma_identifiers_validation::user_id::localpart_is_fully_conforming(s).map(Sx::b))
+        })),
+        _ => return None,
+    })
+}
+
+fn reparse<T>(r: Result<T, IdParseError>) -> Sx {
+    match r {
+        Ok(_) => Sx::N(0),
+        Err(e) => Sx::N(code(&e)),
+    }
+}
+
+fn run_pwsn(id: &str, sn: &str) -> Option<Sx> {
+    let server = <&ServerName>::try_from(sn).ok()?;
+    let fin = |r: Result<String, IdParseError>| -> Sx {
+        res(r.map(|built| {
+            let rp = reparse(UserId::parse(&built));
+            Sx::L(vec![Sx::s(&built), rp])
+        }))
+    };
+    let v = vec![
+        (
+            true,
+            guarded(AssertUnwindSafe(|| fin(UserId::parse_with_server_name(id, server).map(|x| x.as_str().to_owned())))),
+        ),
+        (
+            true,
+            guarded(AssertUnwindSafe(|| {
+                fin(UserId::parse_with_server_name_rc(id, server).map(|x| x.as_str().to_owned()))
+            })),
+        ),
+        (
+            true,
+            guarded(AssertUnwindSafe(|| {
+                fin(UserId::parse_with_server_name_arc(id, server).map(|x| x.as_str().to_owned()))
+            })),
+        ),
+    ];
+    Some(combine(v))
+}
+
+fn run_dk_from_parts(alg: &str, name: &str) -> Sx {
+    guarded(AssertUnwindSafe(|| {
+        let built = DeviceKeyId::from_parts(DeviceKeyAlgorithm::from(alg), <&DeviceId>::from(name));
+        let rp = reparse(DeviceKeyId::parse(built.as_str()));
+        Sx::ok(Sx::L(vec![Sx::s(built.as_str()), rp]))
+    }))
+}
+
+fn run_sk_from_parts(alg: &str, ver: &str) -> Option<Sx> {
+    let version = <&ServerSigningKeyVersion>::try_from(ver).ok()?;
+    Some(guarded(AssertUnwindSafe(|| {
+        let built = ServerSigningKeyId::from_parts(SigningKeyAlgorithm::from(alg), version);
+        let rp = reparse(ServerSigningKeyId::parse(built.as_str()));
+        Sx::ok(Sx::L(vec![Sx::s(built.as_str()), rp]))
+    })))
+}
+
+/// `new` draws a random localpart: the outcome records only what the model can predict — total
+/// length, whether the parser accepts the result, and whether it has the documented shape
+/// (sigil, n ASCII alphanumerics, ':', server name).
+fn run_new(which: i128, sn: &str) -> Option<Sx> {
+    let server = <&ServerName>::try_from(sn).ok()?;
+    Some(guarded(AssertUnwindSafe(|| {
+        let (built, sigil, n, rp): (String, char, usize, Sx) = match which {
+            0 => {
+                let x = UserId::new(server);
+                (x.as_str().to_owned(), '@', 12, reparse(UserId::parse(x.as_str())))
+            }
+            1 => {
+                let x = RoomId::new(server);
+                (x.as_str().to_owned(), '!', 18, reparse(RoomId::parse(x.as_str())))
+            }
+            _ => {
+                let x = EventId::new(server);
+                (x.as_str().to_owned(), '$', 18, reparse(EventId::parse(x.as_str())))
+            }
+        };
+        let b = built.as_bytes();
+        let shape = b.len() == 1 + n + 1 + sn.len()
+            && b[0] == sigil as u8
+            && b[1..1 + n].iter().all(|c| c.is_ascii_alphanumeric() && (which != 0 || !c.is_ascii_uppercase()))
+            && b[1 + n] == b':'
+            && &b[2 + n..] == sn.as_bytes();
+        Sx::ok(Sx::L(vec![Sx::N(b.len() as i128), rp, Sx::b(shape)]))
+    })))
+}
+
+fn run_conv(s: &str) -> Sx {
+    guarded(AssertUnwindSafe(|| {
+        res(<&RoomOrAliasId>::try_from(s).map(|x| {
+            let (is_room, back, rp): (bool, String, Sx) = match <&RoomId>::try_from(x) {
+                Ok(r) => {
+                    let b: &RoomOrAliasId = r.into();
+                    let o: OwnedRoomOrAliasId = r.to_owned().into();
+                    assert!(o.as_str() == b.as_str());
+                    (true, b.as_str().to_owned(), reparse(RoomId::parse(r.as_str())))
+                }
+                Err(a) => {
+                    let b: &RoomOrAliasId = a.into();
+                    let o: OwnedRoomOrAliasId = a.to_owned().into();
+                    assert!(o.as_str() == b.as_str());
+                    (false, b.as_str().to_owned(), reparse(RoomAliasId::parse(a.as_str())))
+                }
+            };
+            Sx::L(vec![Sx::b(is_room), Sx::s(&back), rp])
+        }))
+    }))
+}
+
+fn run_case(case: &Sx) -> Option<Sx> {
+    let l = case.as_list()?;
+    let kind = l.first()?.as_int()?;
+    match (kind, &l[1..]) {
+        (0..=16, [s]) => run_parse(kind, &s.as_string()?),
+        (20, [id, sn]) => run_pwsn(&id.as_string()?, &sn.as_string()?),
+        (21, [a, n]) => Some(run_dk_from_parts(&a.as_string()?, &n.as_string()?)),
+        (22, [a, n]) => run_sk_from_parts(&a.as_string()?, &n.as_string()?),
+        (23, [w, sn]) => run_new(w.as_int()?, &sn.as_string()?),
+        (24, [s]) => Some(run_conv(&s.as_string()?)),
+        _ => None,
+    }
+}
+
+pub fn replay(case: &Sx) -> Option<Sx> {
+    run_case(case)
 }
 
 pub fn dump(_dir: &str) {}
+
+// ---------------------------------------------------------------------------------------------
+// generators
+// ---------------------------------------------------------------------------------------------
+/// The alphabet of the exhaustive stream (DESIGN section 6, C10).
+const ALPHA: &[&str] = &["@", "!", "#", "$", ":", "[", "]", "a", "0", ".", "-", "+", "\u{e9}", "\0"];
+/// Characters used for single-edit mutants: the alphabet above plus a few class representatives.
+const MUT: &[&str] = &[
+    "@", "!", "#", "$", ":", "[", "]", "a", "0", ".", "-", "+", "\u{e9}", "\0", "/", "A", "_", "=", " ", "9", "f", "g",
+    "\u{20ac}", "\u{1f600}", "~", "\u{7f}", "%",
+];
+const PORTS: &[&str] = &[
+    "", "0", "00080", "000080", "+80", "-1", "65535", "65536", "99999", "8448", "443", "1", "100000", "080", "+", "8 0",
+    "\u{664}", "0x50", "65535 ", "655350", "00000", "000000", "+65535", "+0",
+];
+const HOSTS: &[&str] = &[
+    "example.com",
+    "a",
+    "matrix.org",
+    "EXAMPLE.Com",
+    "a-b.c-d",
+    "localhost",
+    "1.2.3.4",
+    "127.0.0.1",
+    "255.255.255.255",
+    "256.1.1.1",
+    "01.2.3.4",
+    "1.2.3",
+    "1.2.3.4.5",
+    "[::1]",
+    "[::]",
+    "[1234:5678::abcd]",
+    "[1:2:3:4:5:6:7:8]",
+    "[1:2:3:4:5:6:1.2.3.4]",
+    "[::ffff:1.2.3.4]",
+    "[1::2:3.4.5.6]",
+    "[1:2:3:4:5:6:7::]",
+    "[::2:3:4:5:6:7:8]",
+    "[fe80::1]",
+    "[FE80::A]",
+    "-",
+    ".",
+    "..",
+    "a..b",
+    "xn--nxasmq6b.example",
+];
+const BAD_HOSTS: &[&str] = &[
+    "",
+    "[",
+    "]",
+    "[]",
+    "[::1",
+    "::1",
+    "[:::]",
+    "[1:2:3:4:5:6:7:8:9]",
+    "[1:2:3:4:5:6:7:8::]",
+    "[12345::]",
+    "[1.2.3.4::]",
+    "[::1.2.3.256]",
+    "[::1.2.3]",
+    "[::01.2.3.4]",
+    "[1:2:3:4:5:6:7:1.2.3.4]",
+    "[::g]",
+    "[::1]]",
+    "[[::1]",
+    "[::1%eth0]",
+    "ex ample",
+    "ex_ample",
+    "ex/ample",
+    "\u{e9}.com",
+    "a\0b",
+    "[::1]a",
+];
+const LOCALS: &[&str] = &[
+    "carl",
+    "a",
+    "",
+    "a.b-c_d=e/f+g",
+    "0123456789",
+    "CARL",
+    "a%b[irc]",
+    "~tilde!",
+    "\u{3c4}",
+    "\u{e9}t\u{e9}",
+    "\u{20ac}uro",
+    "\u{1f600}",
+    "sp ace",
+    "ta\tb",
+    "nu\0l",
+    "del\u{7f}",
+    "!#$@",
+];
+
+fn hexgroup(r: &mut Rng) -> String {
+    let n = 1 + r.below(4);
+    (0..n).map(|_| *r.pick(&["0", "1", "9", "a", "f", "A", "F", "c"])).collect()
+}
+fn octet(r: &mut Rng) -> String {
+    (*r.pick(&["0", "1", "9", "10", "99", "100", "199", "249", "255", "25", "127"])).to_string()
+}
+fn gen_ipv4(r: &mut Rng) -> String {
+    format!("{}.{}.{}.{}", octet(r), octet(r), octet(r), octet(r))
+}
+/// Grammar-derived IPv6 literal (without brackets): full form, compressed form, embedded IPv4.
+fn gen_ipv6(r: &mut Rng) -> String {
+    let v4 = r.chance(1, 4);
+    let total = if v4 { 6 } else { 8 };
+    if r.chance(1, 3) {
+        let mut g: Vec<String> = (0..total).map(|_| hexgroup(r)).collect();
+        if v4 {
+            g.push(gen_ipv4(r));
+        }
+        g.join(":")
+    } else {
+        let present = r.below(total); // groups written, < total
+        let head = r.below(present + 1);
+        let h: Vec<String> = (0..head).map(|_| hexgroup(r)).collect();
+        let mut t: Vec<String> = (0..present - head).map(|_| hexgroup(r)).collect();
+        if v4 {
+            t.push(gen_ipv4(r));
+        }
+        format!("{}::{}", h.join(":"), t.join(":"))
+    }
+}
+fn gen_dns(r: &mut Rng) -> String {
+    let labels = 1 + r.below(4);
+    let mut out = String::new();
+    for i in 0..labels {
+        if i > 0 {
+            out.push('.');
+        }
+        let n = 1 + r.below(8);
+        for _ in 0..n {
+            out.push_str(*r.pick(&["a", "b", "z", "0", "9", "-", "x", "m", "A", "Q"]));
+        }
+    }
+    out
+}
+fn gen_host(r: &mut Rng) -> String {
+    match r.below(10) {
+        0..=2 => (*r.pick(HOSTS)).to_owned(),
+        3..=5 => gen_dns(r),
+        6 => gen_ipv4(r),
+        7 | 8 => format!("[{}]", gen_ipv6(r)),
+        _ => (*r.pick(BAD_HOSTS)).to_owned(),
+    }
+}
+fn gen_port(r: &mut Rng) -> String {
+    if r.chance(1, 2) {
+        (*r.pick(PORTS)).to_owned()
+    } else {
+        let n = 1 + r.below(5);
+        (0..n).map(|_| *r.pick(&["0", "1", "5", "6", "9"])).collect()
+    }
+}
+fn gen_server(r: &mut Rng) -> String {
+    let h = gen_host(r);
+    if r.chance(1, 3) {
+        format!("{h}:{}", gen_port(r))
+    } else {
+        h
+    }
+}
+fn gen_local(r: &mut Rng) -> String {
+    if r.chance(1, 2) {
+        (*r.pick(LOCALS)).to_owned()
+    } else {
+        let n = r.below(12);
+        let strict = r.chance(2, 3);
+        (0..n)
+            .map(|_| {
+                if strict {
+                    *r.pick(&["a", "z", "0", "9", "-", ".", "=", "_", "/", "+"])
+                } else {
+                    *r.pick(&["A", "~", "!", "%", "[", "]", "\u{e9}", "\u{20ac}", "a", " ", "@", "#", "$"])
+                }
+            })
+            .collect()
+    }
+}
+const ALGS: &[&str] = &["ed25519", "curve25519", "signed_curve25519", "a", "", "x:y", "\u{e9}", "ED25519"];
+const KEYNAMES: &[&str] =
+    &["MYDEVICE", "1", "a_b", "", "abc+/=", "AAAA", "a:b", "\u{e9}", "\u{664}", "a b", "a-b", "\u{b2}", "\u{d7}", "JLAFKJWSCS"];
+fn gen_b64(r: &mut Rng) -> String {
+    let n = 1 + r.below(44);
+    (0..n).map(|_| *r.pick(&["A", "z", "0", "9", "+", "/", "="])).collect()
+}
+
+/// A grammar-derived identifier of the given kind (mostly valid).
+fn gen_valid(kind: i128, r: &mut Rng) -> String {
+    match kind {
+        0 | 15 => format!("@{}:{}", gen_local(r), gen_server(r)),
+        1 => {
+            if r.chance(1, 3) {
+                format!("!{}", gen_b64(r).replace(['+', '/', '='], "_"))
+            } else {
+                format!("!{}:{}", gen_local(r), gen_server(r))
+            }
+        }
+        2 => format!("#{}:{}", gen_local(r), gen_server(r)),
+        3 => {
+            if r.chance(1, 2) {
+                format!("${}", gen_b64(r))
+            } else {
+                format!("${}:{}", gen_local(r), gen_server(r))
+            }
+        }
+        4 => {
+            if r.chance(1, 2) {
+                gen_valid(1, r)
+            } else {
+                gen_valid(2, r)
+            }
+        }
+        5 => gen_server(r),
+        6 | 9 => format!("{}:{}", r.pick(ALGS), r.pick(KEYNAMES)),
+        7 => format!("{}:{}", r.pick(ALGS), r.pick(KEYNAMES)),
+        8 => format!("{}:{}", r.pick(ALGS), if r.chance(1, 2) { gen_b64(r) } else { (*r.pick(KEYNAMES)).to_owned() }),
+        10 => {
+            let media: String = {
+                let n = r.below(12);
+                (0..n).map(|_| *r.pick(&["a", "Z", "0", "9", "-", "_"])).collect()
+            };
+            format!("mxc://{}/{}", gen_server(r), media)
+        }
+        11 => (*r.pick(&["1", "2", "10", "11", "12", "org.matrix.msc1234", "a-b.c", "A", "x", "3.1"])).to_owned(),
+        12 => {
+            let n = 1 + r.below(20);
+            (0..n).map(|_| *r.pick(&["a", "Z", "0", ".", "=", "_", "-"])).collect()
+        }
+        13 => gen_b64(r),
+        14 => {
+            let n = 1 + r.below(10);
+            (0..n).map(|_| *r.pick(&["a", "Z", "0", "_", "9"])).collect()
+        }
+        _ => gen_local(r),
+    }
+}
+
+/// Every single-edit mutant of `s` over the mutation alphabet (on characters, so the result is a `&str`).
+fn mutants(s: &str, alphabet: &[&str], out: &mut Vec<String>) {
+    let chars: Vec<char> = s.chars().collect();
+    for i in 0..chars.len() {
+        let mut d: String = chars[..i].iter().collect();
+        d.extend(chars[i + 1..].iter());
+        out.push(d);
+    }
+    for i in 0..=chars.len() {
+        for a in alphabet {
+            let mut d: String = chars[..i].iter().collect();
+            d.push_str(a);
+            d.extend(chars[i..].iter());
+            out.push(d);
+        }
+    }
+    for i in 0..chars.len() {
+        for a in alphabet {
+            let mut d: String = chars[..i].iter().collect();
+            d.push_str(a);
+            d.extend(chars[i + 1..].iter());
+            out.push(d);
+        }
+    }
+}
+
+/// All strings of length <= n over `alphabet` (as symbol sequences).
+fn exhaustive(alphabet: &[&str], n: usize, f: &mut dyn FnMut(&str)) {
+    let mut idx: Vec<usize> = vec![];
+    loop {
+        let s: String = idx.iter().map(|&i| alphabet[i]).collect();
+        f(&s);
+        // increment
+        let mut k = idx.len();
+        loop {
+            if k == 0 {
+                if idx.len() == n {
+                    return;
+                }
+                idx = vec![0; idx.len() + 1];
+                break;
+            }
+            k -= 1;
+            if idx[k] + 1 < alphabet.len() {
+                idx[k] += 1;
+                for j in k + 1..idx.len() {
+                    idx[j] = 0;
+                }
+                break;
+            }
+        }
+    }
+}
+
+fn pad(c: &str, bytes: usize) -> String {
+    c.repeat(bytes / c.len())
+}
+
+/// Identifiers of total byte length `len` for the boundary stream: the padding goes into the
+/// localpart / algorithm / host / media id, with an optional two-byte character placed at byte
+/// offset `eoff` so that a wrapped (`as u8`) index lands inside it.
+fn boundary_ids(kind: i128, len: usize, out: &mut Vec<String>) {
+    let fill = |n: usize, eoff: Option<usize>| -> String {
+        match eoff {
+            Some(o) if o + 2 <= n => format!("{}\u{e9}{}", pad("a", o), pad("a", n - o - 2)),
+            _ => pad("a", n),
+        }
+    };
+    let eoffs: [Option<usize>; 7] = [None, Some(0), Some(1), Some(2), Some(3), Some(5), Some(6)];
+    for e in eoffs {
+        match kind {
+            0 | 2 | 15 => {
+                let sig = if kind == 2 { "#" } else { "@" };
+                if len >= 5 {
+                    out.push(format!("{sig}{}:a.b", fill(len - 5, e)));
+                    if e.is_none() {
+                        out.push(format!("{sig}a:{}", fill(len - 3, None)));
+                        if len >= 9 {
+                            out.push(format!("{sig}a:{}:8448", fill(len - 8, None)));
+                        }
+                    }
+                }
+            }
+            1 => {
+                out.push(format!("!{}", fill(len - 1, e)));
+                if len >= 5 {
+                    out.push(format!("!{}:a.b", fill(len - 5, e)));
+                }
+            }
+            3 => {
+                out.push(format!("${}", fill(len - 1, e)));
+                if len >= 5 {
+                    out.push(format!("${}:a.b", fill(len - 5, e)));
+                }
+            }
+            4 => {
+                out.push(format!("!{}", fill(len - 1, e)));
+                if len >= 5 {
+                    out.push(format!("#{}:a.b", fill(len - 5, e)));
+                }
+            }
+            5 => {
+                if e.is_none() {
+                    out.push(fill(len, None));
+                    if len >= 4 {
+                        out.push(format!("{}:80", fill(len - 3, None)));
+                    }
+                }
+            }
+            6 | 7 | 8 | 9 => {
+                // colon at index len-2 (algorithm padded) and at index 1 (key name padded)
+                if len >= 2 {
+                    out.push(format!("{}:x", fill(len - 2, e)));
+                    out.push(format!("a:{}", fill(len - 2, e)));
+                }
+            }
+            10 => {
+                if len >= 8 && e.is_none() {
+                    out.push(format!("mxc://{}/x", fill(len - 8, None)));
+                    out.push(format!("mxc://a/{}", fill(len - 8, None)));
+                    if len >= 12 {
+                        out.push(format!("mxc://{}:443/x", fill(len - 12, None)));
+                    }
+                }
+            }
+            11 | 12 | 13 | 14 | 16 => {
+                out.push(fill(len, e));
+            }
+            _ => {}
+        }
+    }
+}
+
+fn emit_parse(em: &mut Emitter, tag: &str, kind: i128, s: &str) {
+    if let Some(o) = run_parse(kind, s) {
+        em.emit(tag, Sx::L(vec![Sx::N(kind), Sx::s(s)]), o);
+    }
+}
+
+fn sigil_prefixes(kind: i128) -> &'static [&'static str] {
+    match kind {
+        0 | 15 => &["@"],
+        1 => &["!"],
+        2 => &["#"],
+        3 => &["$"],
+        4 => &["!", "#"],
+        6 | 7 | 8 | 9 => &["a", "a:"],
+        10 => &["mxc://", "mxc://a"],
+        _ => &[""],
+    }
+}
+
+pub fn run(tier: &str, seed: u64, em: &mut Emitter) {
+    let thorough = tier == "thorough";
+    let mut r = Rng::new(seed ^ 0xC10);
+
+    // ---- systematic 1: the port list on every server-name-bearing kind --------------------
+    for host in ["example.com", "1.2.3.4", "[::1]", ""] {
+        for p in PORTS {
+            let sn = format!("{host}:{p}");
+            emit_parse(em, "systematic-ports", 5, &sn);
+            emit_parse(em, "systematic-ports", 0, &format!("@a:{sn}"));
+            emit_parse(em, "systematic-ports", 2, &format!("#a:{sn}"));
+            emit_parse(em, "systematic-ports", 1, &format!("!a:{sn}"));
+            emit_parse(em, "systematic-ports", 3, &format!("$a:{sn}"));
+            emit_parse(em, "systematic-ports", 4, &format!("#a:{sn}"));
+            emit_parse(em, "systematic-ports", 10, &format!("mxc://{sn}/m"));
+            emit_parse(em, "systematic-ports", 15, &format!("@a:{sn}"));
+        }
+    }
+    for h in HOSTS.iter().chain(BAD_HOSTS) {
+        emit_parse(em, "systematic-hosts", 5, h);
+        emit_parse(em, "systematic-hosts", 0, &format!("@a:{h}"));
+        emit_parse(em, "systematic-hosts", 10, &format!("mxc://{h}/m"));
+        emit_parse(em, "systematic-hosts", 5, &format!("{h}:8448"));
+    }
+
+    // ---- systematic 2: boundary lengths (multiples of 256 +- 6) for every kind ------------
+    let mut lens: Vec<usize> = vec![];
+    for base in [250usize, 506, 762] {
+        lens.extend(base..=base + 10);
+    }
+    lens.extend([1usize, 2, 3, 31, 32, 33, 34]);
+    for &kind in PARSE_KINDS {
+        for &len in &lens {
+            let mut ids = vec![];
+            boundary_ids(kind, len, &mut ids);
+            for id in ids {
+                emit_parse(em, "systematic-boundary", kind, &id);
+            }
+        }
+    }
+
+    // ---- systematic 3: exhaustive short strings over the 14-symbol alphabet ---------------
+    // after each kind's sigil / prefix; without prefix up to a shorter length.
+    let (n_pref, n_raw) = if thorough { (5, 4) } else { (3, 2) };
+    for &kind in PARSE_KINDS {
+        for pre in sigil_prefixes(kind) {
+            let n = if kind == 5 || kind >= 11 { n_pref } else { n_pref };
+            exhaustive(ALPHA, n, &mut |w| {
+                let s = format!("{pre}{w}");
+                emit_parse(em, "systematic-exhaustive", kind, &s);
+            });
+        }
+        if !sigil_prefixes(kind).contains(&"") {
+            exhaustive(ALPHA, n_raw, &mut |w| emit_parse(em, "systematic-exhaustive", kind, w));
+        }
+    }
+    // IP literals: exhaustive over a digit/colon/dot alphabet inside brackets and bare.
+    let n6 = if thorough { 7 } else { 5 };
+    exhaustive(&["0", "1", "f", "g", ":", "."], n6, &mut |w| {
+        emit_parse(em, "systematic-ip", 5, &format!("[{w}]"));
+    });
+    let n4 = if thorough { 8 } else { 5 };
+    exhaustive(&["0", "1", "2", "5", ".", "a"], n4, &mut |w| {
+        emit_parse(em, "systematic-ip", 5, w);
+    });
+    exhaustive(&["0", "1", "6", "+", "-", "a"], if thorough { 7 } else { 5 }, &mut |w| {
+        emit_parse(em, "systematic-ip", 5, &format!("h:{w}"));
+    });
+
+    // ---- random structured: grammar-derived ids and every single-edit mutant --------------
+    let bases = if thorough { 40 } else { 3 };
+    for &kind in PARSE_KINDS {
+        for _ in 0..bases {
+            let id = gen_valid(kind, &mut r);
+            emit_parse(em, "random-valid", kind, &id);
+            let mut ms = vec![];
+            mutants(&id, MUT, &mut ms);
+            for m in ms {
+                emit_parse(em, "random-mutant", kind, &m);
+            }
+        }
+        let extra = if thorough { 4000 } else { 400 };
+        for _ in 0..extra {
+            let id = gen_valid(kind, &mut r);
+            emit_parse(em, "random-valid", kind, &id);
+        }
+    }
+    // IPv6 literals get their own stream (the std parser model is the delicate part)
+    let n_ip = if thorough { 60000 } else { 3000 };
+    for i in 0..n_ip {
+        let lit = gen_ipv6(&mut r);
+        let s = format!("[{lit}]");
+        emit_parse(em, "random-valid", 5, &s);
+        if i % 10 == 0 {
+            let mut ms = vec![];
+            mutants(&lit, &[":", ".", "0", "1", "f", "g", "::", "255", "256"], &mut ms);
+            for m in ms {
+                emit_parse(em, "random-mutant", 5, &format!("[{m}]"));
+            }
+        }
+    }
+
+    // ---- constructors -----------------------------------------------------------------------
+    let servers: Vec<String> = {
+        let mut v: Vec<String> = HOSTS.iter().map(|s| (*s).to_owned()).collect();
+        v.push("example.com:8448".into());
+        v.push("[::1]:443".into());
+        for n in [230usize, 236, 237, 238, 240, 241, 242, 243, 250, 251, 252, 253, 254, 255, 256, 300] {
+            v.push(pad("a", n));
+        }
+        v
+    };
+    for sn in &servers {
+        for l in LOCALS {
+            if let Some(o) = run_pwsn(l, sn) {
+                em.emit("constructors", Sx::L(vec![Sx::N(20), Sx::s(l), Sx::s(sn)]), o);
+            }
+            let full = format!("@{l}:{sn}");
+            if let Some(o) = run_pwsn(&full, sn) {
+                em.emit("constructors", Sx::L(vec![Sx::N(20), Sx::s(&full), Sx::s(sn)]), o);
+            }
+        }
+        for n in [0usize, 1, 200, 240, 248, 249, 250, 251, 252, 253, 254, 255, 256, 300, 600] {
+            let l = pad("x", n);
+            if let Some(o) = run_pwsn(&l, sn) {
+                em.emit("constructors", Sx::L(vec![Sx::N(20), Sx::s(&l), Sx::s(sn)]), o);
+            }
+        }
+        for which in 0..3 {
+            if let Some(o) = run_new(which, sn) {
+                em.emit("constructors", Sx::L(vec![Sx::N(23), Sx::N(which), Sx::s(sn)]), o);
+            }
+        }
+    }
+    let mut algs: Vec<String> = ALGS.iter().map(|s| (*s).to_owned()).collect();
+    for n in [250usize, 254, 255, 256, 257, 300, 511, 512, 513] {
+        algs.push(pad("a", n));
+        algs.push(format!("a\u{e9}{}", pad("a", n)));
+    }
+    for a in &algs {
+        for k in KEYNAMES {
+            em.emit("constructors", Sx::L(vec![Sx::N(21), Sx::s(a), Sx::s(k)]), run_dk_from_parts(a, k));
+            if let Some(o) = run_sk_from_parts(a, k) {
+                em.emit("constructors", Sx::L(vec![Sx::N(22), Sx::s(a), Sx::s(k)]), o);
+            }
+        }
+    }
+    let n_conv = if thorough { 4000 } else { 400 };
+    for _ in 0..n_conv {
+        let s = gen_valid(4, &mut r);
+        em.emit("constructors", Sx::L(vec![Sx::N(24), Sx::s(&s)]), run_conv(&s));
+    }
+
+    // ---- malformed: unstructured random strings on every kind --------------------------------
+    let n_mal = if thorough { 6000 } else { 600 };
+    for &kind in PARSE_KINDS {
+        for _ in 0..n_mal {
+            let n = r.below(24);
+            let mut s = String::new();
+            if r.chance(1, 2) {
+                s.push_str(sigil_prefixes(kind)[0]);
+            }
+            for _ in 0..n {
+                if r.chance(1, 8) {
+                    s.push_str(*r.pick(&["\u{e9}", "\u{20ac}", "\u{1f600}", "\0", "\u{7f}", "\u{80}", "\u{664}", "\u{b2}", "\u{d7}"]));
+                } else {
+                    s.push((0x20 + r.below(0x5f)) as u8 as char);
+                }
+            }
+            emit_parse(em, "malformed", kind, &s);
+        }
+    }
+}
